@@ -33,7 +33,8 @@ i = o.find('if let Some(DiffOp::Equal { len, .. }) = ops.last_mut() {', fn)
 o.lines[i:i] = ghost('''
 let ghost opsf = ops@;
 assert(opsf.len() == ops0.len());
-assert(opsf[0] == trimmed_op(ops0, ni, 0) || (ops0.len() > 1 && opsf[0] == ops0[0]));
+assert(opsf[0] == trimmed_op(ops0, ni, 0));
+assert(forall|i: int| 1 <= i < opsf.len() ==> opsf[i] == ops0[i]);
 ''', '    ')
 o.before('match IntoIterator::into_iter(ops.into_iter()) { mut it__ =>', '''
 let ghost ops1 = ops@;
